@@ -420,3 +420,44 @@ def gen_workflow(rng, maxlen=4, allow_params=True, nproc=None, bufsize=None, mul
 def run_many(fn, args, workers=None):
     with ThreadPoolExecutor(workers or vlib.NPROC) as ex:
         return list(ex.map(fn, args))
+
+
+# ------------------------------------------------------------------ a standard success-path case
+
+def success_case(sp, yield_seed=None, timeout=60, gomaxprocs=None, extra_check=None):
+    """run one spec on model and implementation; returns dict with problems (list of (kind, text))"""
+    model = run_model(sp.text())
+    sc = Scratch()
+    try:
+        sc.plant(sp.files)
+        impl = run_impl(sc, sp, yield_seed=yield_seed, timeout=timeout, gomaxprocs=gomaxprocs)
+        if model["status"] != "done" or model["failed"]:
+            problems = [("model-predicts-failure", "generator produced a workflow the model does not complete: %s" % model["status"])]
+        else:
+            problems = compare_success(sp, model, impl)
+        if extra_check:
+            problems += extra_check(sp, model, impl, sc)
+        return {"spec": sp.text(), "bufsize": sp.bufsize, "problems": problems, "ntasks": sum(1 for t in model["tasks"] if t["status"] == "run"),
+                "nskip": sum(1 for t in model["tasks"] if t["status"] == "skip"), "rc": impl["rc"], "stderr": impl["stderr"][-400:], "yield": yield_seed,
+                "wall": impl["wall"]}
+    finally:
+        sc.close()
+
+
+def report_t3(rep, module, proved, results, what_corr, violation_kinds=None):
+    """turn T3 results into VIOLATION lines: each problem is a concrete workflow on which the implementation's
+    observables differ from what the property (via the proved model) demands"""
+    found = False
+    for r in results:
+        if r["problems"]:
+            kinds = [k for k, _ in r["problems"]]
+            rep.violation("; ".join("%s: %s" % p for p in r["problems"])[:1500],
+                          {"kind": kinds[0], "spec": r["spec"], "bufsize": r.get("bufsize"), "yield": r.get("yield"), "problems": r["problems"],
+                           "stderr": r.get("stderr"), "how_to_replay": "write spec to a file, plant FILE lines, run build/bin/wfrun SPEC in an empty directory with SCIPIPE_BUFSIZE set"})
+            found = True
+            if len(rep.violations) >= 5:
+                break
+    if not proved and not found:
+        rep.violation("proof obligations of %s no longer check: %s" % (module, rep.notes.get("broken_obligations") or rep.notes.get("open_assumptions")),
+                      {"kind": "proof-obligation", "theorem_or_correspondence": module + " / " + what_corr, "detail": rep.notes.get("broken_obligations") or rep.notes.get("open_assumptions")}, nofail=True)
+    return found
